@@ -60,7 +60,7 @@ var uuidPool = []string{
 	"c0ffee00-c0ff-4e00-8c0f-fee000000000", "0f0f0f0f-0f0f-4f0f-8f0f-0f0f0f0f0f0f",
 }
 
-var badIds = []V{AStr("not-a-uuid"), AStr("1234"), AStr("zzzzzzzz-zzzz-zzzz-zzzz-zzzzzzzzzzzz"), ANum(3, "i"), ANil(), ABool(true)}
+var badIds = []V{AStr("not-a-uuid"), AStr("1234"), AStr("zzzzzzzz-zzzz-zzzz-zzzz-zzzzzzzzzzzz"), ANil(), ABool(true), AArr()}
 
 var strPool = []string{"", "a", "ab", "abc", "b", "ba", "\x00", "a\x00", "a\x00b", "\xff", "a\xff", "\xff\x00", "é", "hello world", "Hello", "z"}
 
@@ -562,6 +562,9 @@ func (g *Gen) event(op string) E {
 				invalid = true
 			case g.chance(g.P.Invalid * 0.3):
 				id = badIds[g.r.Intn(len(badIds))]
+				if g.chance(0.2) {
+					id = g.smallNum()
+				}
 				invalid = true
 			case g.chance(0.15) || len(free) == 0:
 				if g.chance(0.3) {
